@@ -715,6 +715,53 @@ def _bind_loop_iterables(tree):
                     i += 1
 
 
+def _quantifier_returns(tree):
+    """``return all(e for x in xs)`` is the loop ``for x in xs: if not e:
+    return False`` followed by ``return True`` (``any`` dually): a
+    quantifier over a generator and the early-exit loop are the same
+    search."""
+    for node in ast.walk(tree):
+        for fld in ('body', 'orelse', 'finalbody'):
+            blk = getattr(node, fld, None)
+            if not (isinstance(blk, list) and blk and isinstance(
+                    blk[0], ast.stmt)):
+                continue
+            i = 0
+            while i < len(blk):
+                st = blk[i]
+                i += 1
+                v = st.value if isinstance(st, ast.Return) else None
+                if not (isinstance(v, ast.Call) and isinstance(
+                        v.func, ast.Name) and v.func.id in ('all', 'any')
+                        and len(v.args) == 1 and not v.keywords and
+                        isinstance(v.args[0], (ast.GeneratorExp,
+                                               ast.ListComp))
+                        and len(v.args[0].generators) == 1 and not
+                        v.args[0].generators[0].is_async):
+                    continue
+                gen = v.args[0].generators[0]
+                is_all = v.func.id == 'all'
+                test = _negate(v.args[0].elt) if is_all else v.args[0].elt
+                inner = ast.If(test=test, body=[ast.copy_location(
+                    ast.Return(value=ast.Constant(value=not is_all)), st)],
+                    orelse=[])
+                body = [ast.copy_location(inner, st)]
+                for c in reversed(gen.ifs):
+                    body = [ast.copy_location(
+                        ast.If(test=c, body=body, orelse=[]), st)]
+                tgt = gen.target
+                for x in ast.walk(tgt):
+                    if isinstance(x, ast.Name):
+                        x.ctx = ast.Store()
+                loop = ast.copy_location(ast.For(
+                    target=tgt, iter=gen.iter, body=body, orelse=[]), st)
+                last = ast.copy_location(
+                    ast.Return(value=ast.Constant(value=is_all)), st)
+                ast.fix_missing_locations(loop)
+                blk[i - 1:i] = [loop, last]
+                i += 1
+
+
 def _tuple_assigns(tree):
     """``a, b = x, y`` with plain names on the left, none of them read on
     the right, is ``a = x`` then ``b = y``."""
@@ -889,6 +936,7 @@ def normalise(tree):
     _filtered_iteration(tree)
     _conditional_expressions(tree)
     _star_dict_calls(tree)
+    _quantifier_returns(tree)
     _tuple_assigns(tree)
     _dead_constant_stores(tree)
     _bind_loop_iterables(tree)
